@@ -132,6 +132,15 @@ Proof. intros H. apply read_le_app. exact H. Qed.
 Lemma rd_wr_nil n v : v < 2 ^ N.of_nat n -> rd n (wr n v) = Some (v, []).
 Proof. intros H. rewrite <- (app_nil_r (wr n v)). apply rd_wr, H. Qed.
 
+Lemma pow2_24 : 2 ^ 24 = 16777216. Proof. reflexivity. Qed.
+Lemma pow2_20 : 2 ^ 20 = 1048576. Proof. reflexivity. Qed.
+Lemma pow2_36 : 2 ^ 36 = 68719476736. Proof. reflexivity. Qed.
+Lemma pow2_32 : 2 ^ 32 = 4294967296. Proof. reflexivity. Qed.
+Lemma rd_wr_lit n v r bound : bound = 2 ^ N.of_nat n -> v < bound -> rd n (wr n v ++ r) = Some (v, r).
+Proof. intros -> H. apply rd_wr, H. Qed.
+Lemma rd_wr_nil_lit n v bound : bound = 2 ^ N.of_nat n -> v < bound -> rd n (wr n v) = Some (v, []).
+Proof. intros -> H. apply rd_wr_nil, H. Qed.
+
 (* ---- STREAMINFO *)
 Definition ty_streaminfo (si : streaminfo) : Prop :=
   si_minb si < 65536 /\ si_maxb si < 65536 /\ si_minf si < 4294967296 /\ si_maxf si < 4294967296 /\
@@ -152,7 +161,7 @@ Proof.
   destruct T as (T1 & T2 & T3 & T4 & T5 & [T6 T6'] & [T7 T7'] & T8 & T9).
   unfold write_streaminfo in W.
   cbn [si_minb si_maxb si_minf si_maxf si_rate si_ch si_bps si_total si_md5] in W.
-  change (2 ^ 24) with 16777216 in W. change (2 ^ 20) with 1048576 in W. change (2 ^ 36) with 68719476736 in W.
+  rewrite pow2_24, pow2_20, pow2_36 in W.
   destruct (N.ltb_spec minf 16777216) as [H1|H1]; cbn [negb] in W; [|discriminate].
   destruct (N.ltb_spec maxf 16777216) as [H2|H2]; cbn [negb] in W; [|discriminate].
   destruct (N.ltb_spec rate 1048576) as [H3|H3]; cbn [negb] in W; [|discriminate].
@@ -171,11 +180,12 @@ Proof.
   assert (LS : length S = (8 * 8)%nat) by (unfold S; rewrite !app_length, !wr_length; reflexivity).
   rewrite (pbind_eq (take 8) _ _ (bytes_of_bits 8 S) _) by (apply take_app_len, lenN_bytes_of_bits, LS).
   rewrite bits_of_bytes_of_bits by exact LS. unfold S.
-  rewrite rd_wr by exact H3. rewrite rd_wr by exact H4. rewrite rd_wr by (change (2 ^ N.of_nat 5) with 32; lia).
-  rewrite rd_wr_nil by exact H7.
+  rewrite (rd_wr_lit 20 rate _ 1048576 eq_refl H3). rewrite (rd_wr_lit 3 (ch - 1) _ 8 eq_refl H4).
+  rewrite (rd_wr_lit 5 (bps - 1) _ 32 eq_refl) by lia.
+  rewrite (rd_wr_nil_lit 36 total 68719476736 eq_refl H7).
   unfold bitcount_checked_add, signed_count.
   replace (bps - 1 + 1) with bps by lia.
-  destruct (N.ltb_spec bps (2 ^ 32)) as [_|Hx]; [|change (2 ^ 32) with 4294967296 in Hx; lia].
+  rewrite pow2_32. destruct (N.ltb_spec bps 4294967296) as [_|Hx]; [|lia].
   destruct (N.leb_spec bps 32) as [_|Hx]; [|lia].
   destruct (N.eqb_spec bps 0) as [Hx|_]; [lia|].
   replace (ch - 1 + 1) with ch by lia.
@@ -337,24 +347,28 @@ Section ContiguousCodec.
     Forall byte s ->
     try_collect valid_first is_next MAX p fuel n rev_items len s = Ok (out, r) ->
     exists l, out = rev rev_items ++ l /\ lenN l = n /\ Forall good l /\ chain_ok rev_items l /\
-              (l <> [] -> len + n <= MAX) /\ lenN s = lenN (enc_all l) + lenN r /\ Forall byte r.
+              (l <> [] -> len + n <= MAX) /\ (exists c, s = c ++ r /\ lenN c = lenN (enc_all l)) /\ Forall byte r.
   Proof.
     induction fuel as [|f0 fuel IH]; intros n rev_items len s out r Hs H.
     - cbn [try_collect] in H. destruct (N.eqb_spec n 0) as [->|Hn].
       + apply Ok_inj in H. injection H as <- <-. exists []. rewrite app_nil_r.
-        repeat split; auto. { unfold chain_ok. destruct rev_items; reflexivity. } congruence.
+        split; [reflexivity|]. split; [reflexivity|]. split; [constructor|].
+        split; [unfold chain_ok; destruct rev_items; reflexivity|]. split; [congruence|].
+        split; [exists []; split; reflexivity|exact Hs].
       + destruct (p s) as [[x s']| |]; try discriminate.
         destruct (try_push valid_first is_next MAX rev_items len x) as [[?|]| |]; discriminate.
     - cbn [try_collect] in H. destruct (N.eqb_spec n 0) as [->|Hn].
       + apply Ok_inj in H. injection H as <- <-. exists []. rewrite app_nil_r.
-        repeat split; auto. { unfold chain_ok. destruct rev_items; reflexivity. } congruence.
+        split; [reflexivity|]. split; [reflexivity|]. split; [constructor|].
+        split; [unfold chain_ok; destruct rev_items; reflexivity|]. split; [congruence|].
+        split; [exists []; split; reflexivity|exact Hs].
       + destruct (p s) as [[x s']| |] eqn:P; try discriminate.
         apply p_inv in P; [|exact Hs]. destruct P as [Gx (c & -> & Lc)].
         pose proof (Forall_app_r _ _ _ Hs) as Hs'.
         unfold try_push in H. destruct (N.ltb_spec len MAX) as [Hlt|Hge]; [|discriminate].
         destruct (match rev_items with [] => Ok (valid_first x) | last :: _ => is_next x last end) as [[|]| |] eqn:Nx;
           cbn [bind] in H; try discriminate.
-        apply IH in H; [|exact Hs']. destruct H as (l & -> & Ll & Gl & Cl & Ml & Len & Hr).
+        apply IH in H; [|exact Hs']. destruct H as (l & -> & Ll & Gl & Cl & Ml & (c' & -> & Len) & Hr).
         exists (x :: l). cbn [rev]. rewrite <- app_assoc. cbn [app].
         split; [reflexivity|]. split; [cbn [lenN]; lia|]. split; [constructor; assumption|].
         split.
@@ -365,7 +379,8 @@ Section ContiguousCodec.
         { intros _. destruct l as [|y l'].
           - cbn [lenN] in Ll. lia.
           - assert (N.succ len + N.pred n <= MAX) by (apply Ml; discriminate). lia. }
-        split; [|exact Hr]. cbn [enc_all]. rewrite !lenN_app. lia.
+        split; [|exact Hr]. exists (c ++ c'). rewrite <- app_assoc. split; [reflexivity|].
+        cbn [enc_all]. rewrite !lenN_app. lia.
   Qed.
 End ContiguousCodec.
 
@@ -482,7 +497,8 @@ Proof.
   intros Hs H. unfold read_seektable in H.
   destruct (N.eqb_spec (size mod 18) 0) as [Hm|]; [|discriminate].
   apply (try_collect_inv seekpoint_valid_first seekpoint_is_next SEEK_MAX_POINTS read_seekpoint write_seekpoint good_seekpoint read_seekpoint_inv) in H; [|exact Hs].
-  destruct H as (l' & E & Ll & G & C & M & Len & Hr). cbn [rev app] in E. subst l'.
+  destruct H as (l' & E & Ll & G & C & M & (cc & -> & Lcc) & Hr). cbn [rev app] in E. subst l'.
+  assert (Len : lenN (cc ++ r) = lenN (enc_all write_seekpoint l) + lenN r) by (rewrite lenN_app, Lcc; reflexivity).
   assert (Hsz : size = 18 * lenN l).
   { rewrite Ll. pose proof (N.div_mod size 18). lia. }
   split; [|split; [exact Hsz|split; [|split; assumption]]].
@@ -499,111 +515,3 @@ Proof.
     + rewrite (seek_contig_writes l' SPPlaceholder None); [reflexivity|exact C|exact Gl|exact Logic.I].
 Qed.
 
-(* ================================================================================== *)
-(* block level                                                                         *)
-(* ================================================================================== *)
-Section BlockLevel.
-Variable utf8_valid : list N -> bool.
-
-(* block types whose codec theorems are proved below (widened as the development grows) *)
-Definition covered (b : block) : Prop :=
-  match b with
-  | BStreaminfo _ | BPadding _ | BApplication _ | BSeekTable _ => True
-  | _ => False
-  end.
-
-(* the invariants the Rust types give a value (field widths, NonZero, BlockSize,
-   Contiguous, valid UTF-8 in a String) *)
-Definition ty_block (b : block) : Prop :=
-  match b with
-  | BStreaminfo s => ty_streaminfo s
-  | BPadding n => n <= BLOCKSIZE_MAX
-  | BApplication a => ty_application a
-  | BSeekTable l => ty_seektable l
-  | _ => True
-  end.
-(* values the encoding can represent faithfully (excludes the one known aliasing class) *)
-Definition canon_block (b : block) : Prop :=
-  match b with BStreaminfo s => canon_streaminfo s | _ => True end.
-
-Lemma body_write_read b bs r : covered b -> ty_block b -> canon_block b -> write_body b = Ok bs ->
-  read_body utf8_valid (block_type b) (lenN bs) (bs ++ r) = Ok (b, r).
-Proof.
-  intros Cv T C W. destruct b as [si|n|a|l|v|c|x]; try contradiction; cbn [write_body block_type read_body ty_block canon_block] in *.
-  - rewrite (pbind_eq read_streaminfo _ _ si r) by (apply streaminfo_write_read; assumption). reflexivity.
-  - unfold write_padding in W. apply Ok_inj in W. subst bs. rewrite lenN_zerosN.
-    rewrite (pbind_eq (read_padding n) _ _ n r) by apply padding_write_read. reflexivity.
-  - unfold write_application in W. apply Ok_inj in W. subst bs. rewrite lenN_app, lenN_be_bytes.
-    change (N.of_nat 4) with 4. rewrite <- app_assoc.
-    rewrite (pbind_eq (read_application _) _ _ a r) by (apply application_write_read; apply T). reflexivity.
-  - pose proof W as W'. unfold write_seektable in W'. apply write_seekpoints_ok in W'. destruct W' as [E _].
-    rewrite E at 1. rewrite lenN_enc_all_seek.
-    rewrite (pbind_eq (read_seektable _) _ _ l r) by (apply seektable_write_read; assumption). reflexivity.
-Qed.
-
-Lemma check_seekpoints_spec : forall l lo,
-  match write_seekpoints lo l with
-  | Ok _ => check_seekpoints lo l = Ok tt
-  | Err _ => exists e, check_seekpoints lo l = Err e
-  | Panic _ => False
-  end.
-Proof.
-  induction l as [|x l IH]; intros lo; cbn [write_seekpoints check_seekpoints]; [reflexivity|].
-  destruct x as [so bo fs|].
-  - destruct (so =? U64_MAX); [eauto|].
-    destruct lo as [lo|]; [destruct (lo <? so); [|eauto]|];
-      specialize (IH (Some so)); destruct (write_seekpoints (Some so) l); cbn [bind]; auto.
-  - specialize (IH lo). destruct (write_seekpoints lo l); cbn [bind]; auto.
-Qed.
-
-(* the size computed from the field widths is the number of bytes written *)
-Lemma body_size_write b : covered b -> ty_block b ->
-  match write_body b with
-  | Ok bs => body_size b = Ok (lenN bs)
-  | Err _ => exists e, body_size b = Err e
-  | Panic k => body_size b = Panic k
-  end.
-Proof.
-  intros Cv T. destruct b as [si|n|a|l|v|c|x]; try contradiction; cbn [write_body body_size ty_block] in *.
-  - unfold write_streaminfo.
-    destruct (negb (si_minf si <? 2 ^ 24)); [eauto|]. destruct (negb (si_maxf si <? 2 ^ 24)); [eauto|].
-    destruct (negb (si_rate si <? 2 ^ 20)); [eauto|]. destruct (negb (si_ch si - 1 <? 8)); [eauto|].
-    destruct (bitcount_checked_sub 31 (si_bps si) 1); [|reflexivity].
-    destruct (negb (si_total si <? 2 ^ 36)); [eauto|].
-    rewrite !lenN_app, !lenN_be_bytes.
-    rewrite lenN_bytes_of_bits by (rewrite !app_length, !wr_length; reflexivity).
-    destruct T as (_ & _ & _ & _ & _ & _ & _ & _ & T9).
-    destruct (si_md5 si) as [m|]; [destruct T9 as [-> _]|rewrite lenN_zerosN]; reflexivity.
-  - unfold write_padding. rewrite lenN_zerosN. reflexivity.
-  - unfold write_application. rewrite lenN_app, lenN_be_bytes. reflexivity.
-  - unfold write_seektable. pose proof (check_seekpoints_spec l None) as H.
-    destruct (write_seekpoints None l) as [bs|e|k] eqn:W.
-    + rewrite H. cbn [bind]. apply write_seekpoints_ok in W. destruct W as [-> _].
-      rewrite lenN_enc_all_seek. reflexivity.
-    + destruct H as [e' ->]. cbn [bind]. eauto.
-    + contradiction.
-Qed.
-
-Lemma write_block_inv last b bs : covered b -> ty_block b -> write_block last b = Ok bs ->
-  exists body, write_body b = Ok body /\ lenN body <= BLOCKSIZE_MAX /\
-               body_size b = Ok (lenN body) /\
-               bs = write_header (mkHeader last (block_type b) (lenN body)) ++ body.
-Proof.
-  intros Cv T W. unfold write_block in W. pose proof (body_size_write b Cv T) as S.
-  destruct (write_body b) as [body|e|k].
-  - rewrite S in W. cbn [bind] in W. destruct (N.ltb_spec BLOCKSIZE_MAX (lenN body)) as [|Hle]; [discriminate|].
-    apply Ok_inj in W. exists body. auto.
-  - destruct S as [e' S]. rewrite S in W. discriminate.
-  - rewrite S in W. discriminate.
-Qed.
-
-(* MetadataBlock::bytes() = header size field = number of body bytes written *)
-Lemma block_bytes_spec last b bs : covered b -> ty_block b -> write_block last b = Ok bs ->
-  exists body, bs = write_header (mkHeader last (block_type b) (lenN body)) ++ body /\
-               write_body b = Ok body /\ block_bytes b = Ok (Some (lenN body)).
-Proof.
-  intros Cv T W. destruct (write_block_inv last b bs Cv T W) as (body & Wb & Le & Sz & ->).
-  exists body. split; [reflexivity|split; [exact Wb|]]. unfold block_bytes. rewrite Sz.
-  destruct (N.leb_spec (lenN body) BLOCKSIZE_MAX); [reflexivity|lia].
-Qed.
-End BlockLevel.
